@@ -561,8 +561,11 @@ RUNTIME = {'@__cxa_allocate_exception', '@__cxa_free_exception', '@__cxa_throw',
            '@_ZnwmRKSt9nothrow_t', '@_ZnamRKSt9nothrow_t', '@__cxa_deleted_virtual', '@__cxa_call_unexpected'}
 
 RUNTIME_BODIES = {
- '@__cxa_allocate_exception': '{ void* p = malloc(a0); __CPROVER_assume(p != 0); __vx_exc_alive++; return (RET)p; }',
- '@__cxa_free_exception': '{ __vx_exc_alive--; free((void*)a0); }',
+ # exception objects live in a small static ring (one heap object per potential throw site makes every pointer dereference in the
+ # closure range over hundreds of dynamic objects); at most VX_EXC_SLOTS exceptions are alive at once (asserted)
+ '@__cxa_allocate_exception': '{ __VX_ASSERT(a0 <= VX_EXC_SIZE, "exception object fits the modelled slot"); __VX_ASSERT(__vx_exc_alive < VX_EXC_SLOTS, "number of live exception objects within the model"); '
+   '__CPROVER_assume(a0 <= VX_EXC_SIZE && __vx_exc_alive < VX_EXC_SLOTS); void* p = (void*)__vx_exc_store[__vx_exc_next]; __vx_exc_next = (__vx_exc_next + 1) % VX_EXC_SLOTS; __vx_exc_alive++; return (RET)p; }',
+ '@__cxa_free_exception': '{ __vx_exc_alive--; }',
  '@__cxa_throw': '{ __vx_exc_obj = (void*)a0; __vx_exc_type = (void*)a1; __vx_exc_dtor = (void*)a2; __vx_pending = 1; }',
  '@__cxa_begin_catch': '{ __VX_ASSERT(__vx_caught_n < VX_CAUGHT_MAX, "caught-exception stack depth"); __CPROVER_assume(__vx_caught_n < VX_CAUGHT_MAX);'
    ' __vx_caught_obj[__vx_caught_n] = __vx_exc_obj; __vx_caught_type[__vx_caught_n] = __vx_exc_type; __vx_caught_dtor[__vx_caught_n] = __vx_exc_dtor;'
@@ -571,7 +574,7 @@ RUNTIME_BODIES = {
  '@__cxa_end_catch': '{ __VX_ASSERT(__vx_caught_n > 0, "end_catch without begin_catch"); __CPROVER_assume(__vx_caught_n > 0); __vx_caught_n--;'
    ' if (!__vx_caught_rethrown[__vx_caught_n]) { int sp = __vx_pending; void* so = __vx_exc_obj; void* st = __vx_exc_type; void* sd = __vx_exc_dtor; __vx_pending = 0;'
    ' if (__vx_caught_dtor[__vx_caught_n]) ((__vx_dtor_fn*)__vx_caught_dtor[__vx_caught_n])(__vx_caught_obj[__vx_caught_n]);'
-   ' __vx_exc_alive--; free(__vx_caught_obj[__vx_caught_n]); __vx_pending = sp; __vx_exc_obj = so; __vx_exc_type = st; __vx_exc_dtor = sd; } }',
+   ' __vx_exc_alive--; __vx_pending = sp; __vx_exc_obj = so; __vx_exc_type = st; __vx_exc_dtor = sd; } }',
  '@__cxa_rethrow': '{ __VX_ASSERT(__vx_caught_n > 0, "rethrow outside handler"); __CPROVER_assume(__vx_caught_n > 0);'
    ' __vx_caught_rethrown[__vx_caught_n - 1] = 1; __vx_exc_obj = __vx_caught_obj[__vx_caught_n - 1]; __vx_exc_type = __vx_caught_type[__vx_caught_n - 1];'
    ' __vx_exc_dtor = __vx_caught_dtor[__vx_caught_n - 1]; __vx_pending = 1; }',
@@ -628,6 +631,7 @@ class Translator:
             if init is None or not isinstance(rt, ArrT) or rt.n < BIGTAB_MIN: continue
             el = em.resolve(rt.el)
             if not isinstance(el, IntT): continue
+            if not const and init[0][1] == 'zeroinitializer': continue     # a large zero-initialised buffer is a buffer, not a table
             if not const and n not in consts and gname(n) not in consts:
                 raise NotImplementedError('large mutable table %s (%d elements): list it in const_tables or cut its users' % (n, rt.n))
             vals = s.parse_int_array(init, rt)
@@ -777,6 +781,8 @@ class Translator:
             if init is None:
                 if n.startswith('@_ZTI'):
                     gdecl.append('struct { void* a; void* b; } %s;' % gname(n))   # external type_info: opaque root
+                elif n == '@__dso_handle':
+                    gdecl.append('extern %s %s;' % (ct, gname(n)))   # provided by the C runtime natively; only its address is used
                 else:
                     gdecl.append('%s %s;' % (ct, gname(n)))   # external data: zero-initialised object of its type
             else:
